@@ -481,7 +481,9 @@ def run_c06(ctx):
             raise tlc.MachineryError('Bonferroni.tla %s: %s\n%s' % (name, res.violation, res.out[-1500:]))
         tlc.check_coverage(res, ['Eval'], 'Bonferroni/' + name)
         dump = os.path.join(wd, name)
-        for st in _read_done(dump):
+        from tlaval import to_tla
+        states = sorted(_read_done(dump), key=lambda st: (to_tla(st['shape']), to_tla(st['level']), to_tla(st['pss'])))
+        for st in states:       # (the order of a dump depends on TLC's workers)
             n_states += 1
             for path in ('static', 'stub'):
                 case, order = _state_case(st, path)
